@@ -143,6 +143,68 @@ def sites(chk):
                 chk.broken("correspondence: the client requested %s for role %r, the model's file name is %r" % (log[-1:], nm, wf), desc)
             if ("ds/" + wf) not in listing:
                 chk.broken("correspondence: the datastore holds %s, the model's file name for role %r is %r" % (sorted(listing), nm, wf), desc)
+        # two roles whose names differ by a prefix that looks like a version ("x" and "<own version>.x", also
+        # "<own version>.snapshot" next to the top-level roles): in the datastore each has its own file, holding its
+        # own metadata, and the files of the top-level roles stay what they are
+        import json as _json
+        pcases, pinfo = [], []
+        for cs in (False, True):
+            for other in ("stable", "snapshot", "timestamp", "targets", "root", "a/b"):
+                s = scen.Scen()
+                n2 = "9." + other
+                roles, dl, metas = [], [], {}
+                pair = ([(other, 7)] if other not in ("snapshot", "timestamp", "targets", "root") else []) + [(n2, 9)]
+                for nm, v in pair:
+                    d = s.targets(version=v, targets=[], sigs=scen.valid([7]))
+                    roles.append({"name": nm, "keyids": [7], "threshold": 1, "paths": ["zz/*"]})
+                    dl.append((nm, v, d))
+                    metas[nm + ".json"] = scen.meta(d, v)
+                tgt = s.targets(version=1, targets=[{"name": "file.txt", "content": "hello"}],
+                                delegations={"keys": [7], "roles": roles})
+                metas["targets.json"] = scen.meta(tgt, 1)
+                snap = s.snapshot(version=1, meta=metas)
+                ts = s.timestamp(version=1, meta={"snapshot.json": scen.meta(snap, 1)})
+                r = s.root(cs=cs)
+                files = scen.top_files(cs, ts, snap, 1, tgt, 1, delegated=dl)
+                sent = os.path.join(base, "p%d" % len(pcases))
+                os.makedirs(os.path.join(sent, "ds"))
+                s.cycle(r, files)
+                pcases.append({"p": 15, "docs": s.docs, "cycle": s.cycles[0], "datastore": os.path.join(sent, "ds")})
+                pinfo.append((pair, cs, sent))
+        pres = C.run_impl(pcases)
+        for (pair, cs, sent), r in zip(pinfo, pres):
+            chk.seen(["pair", [p[0] for p in pair], cs], True)
+            chk.count("site-datastore-pairs")
+            desc = {"site": "datastore, two roles of which one is named <own version>.<the other>", "roles": pair,
+                    "consistent_snapshot": cs, "result": r}
+            if not (isinstance(r, list) and len(r) == 3 and r[0][0] == 0):
+                chk.broken("a repository with delegated roles %r did not load" % (pair,), desc)
+                continue
+            pwant = C.run_model([[16, 0, 1 if cs else 0, v, C.enc(nm)] for nm, v in pair])
+            held = {}
+            for f in os.listdir(os.path.join(sent, "ds")):
+                try:
+                    held[f] = _json.load(open(os.path.join(sent, "ds", f)))
+                except Exception:
+                    held[f] = None
+            desc["datastore"] = {f: ((d or {}).get("signed", {}).get("_type"), (d or {}).get("signed", {}).get("version"))
+                                 if isinstance(d, dict) else None for f, d in held.items()}
+            names_w = [C.b2s(x) for x in pwant]
+            if len(set(names_w)) != len(names_w):
+                chk.broken("the model maps two role names to one file", desc)
+            for (nm, v), wf in zip(pair, names_w):
+                d = held.get(wf)
+                if not isinstance(d, dict):
+                    chk.broken("correspondence: the datastore holds %s, the model's file name for role %r is %r" % (sorted(held), nm, wf), desc)
+                elif d.get("signed", {}).get("_type") != "targets" or d["signed"].get("version") != v:
+                    chk.violation("the datastore file %r of role %r holds another role's metadata (%s version %s)" % (
+                        wf, nm, d.get("signed", {}).get("_type"), d.get("signed", {}).get("version")), desc)
+            for top in ("root", "snapshot", "timestamp", "targets"):
+                d = held.get(top + ".json")
+                if top != "root" and (not isinstance(d, dict) or d.get("signed", {}).get("_type") != top
+                                      or (top == "targets" and d["signed"].get("version") != 1)):
+                    chk.violation("the datastore file %s.json does not hold the %s metadata after loading roles %r" % (
+                        top, top, [p[0] for p in pair]), desc)
         # a delegated role bearing the name of a top-level role would be fetched, stored and cached under that role's
         # file name: it must be refused wherever it sits in the delegation tree
         rcases, rinfo = [], []
